@@ -60,7 +60,7 @@ Print Assumptions msg_unbounded_body_limit_refuted.
 Theorem use_depth_bounded : forall evs,
   let s := use_run evs in
   (u_term s = false -> (0 <= u_ptr s <= MAX_USE_DEPTH)%Z) /\
-  (u_term s = true -> u_ptr s = (-1)%Z) /\
+  (u_term s = true -> (u_ptr s <= -1)%Z) /\
   (forall i, In i (u_access s) -> (0 <= i < USE_STACK_SIZE)%Z) /\
   NoDup (u_opened s).
 Proof. exact UseStackProofs.use_depth_bounded. Qed.
